@@ -88,7 +88,9 @@ func (c *c41replies) get(spec ...string) rueidis.RedisResult {
 
 type c41terr struct{ pos int }
 
-func (e *c41terr) Error() string { return fmt.Sprintf("c41 transport error at batch position %d", e.pos) }
+func (e *c41terr) Error() string {
+	return fmt.Sprintf("c41 transport error at batch position %d", e.pos)
+}
 
 type c41fast struct {
 	mode      string       // "rediserr" | "transport"
